@@ -1,2 +1,3 @@
-pub mod rt;
+pub mod bfs;
 pub mod models;
+pub mod rt;
